@@ -248,6 +248,11 @@ def c_offm2(m, pt, d):
     return ("le", _x0(m, pt) - pt.offset(_x0, -2), 0.6)
 
 
+def c_x_between_pg(m, pt, d):
+    # two-sided with a PARAMETRIC upper bound (needs pg == 'scalar')
+    return ("between", -1.5, _x0(m, pt), 1.3 + pt.s["pg"])
+
+
 def c_x_le_xv(m, pt, d):
     # unknowns on BOTH sides of the inequality (needs a global variable and a second state component)
     return ("le", _x0(m, pt), 0.5 * m.el(pt.s["x"], 1) + pt.s["vg"] + 1.4)
@@ -364,6 +369,11 @@ def o_mayer_T(m, pt, d):
 def o_sum_T(m, pt, d):
     # ... and inside sum / integral on the control grid
     return pt.sum(lambda m_, p_: _x0(m_, p_) * p_.s["T"] + (p_.s["t"] - p_.s["t0"]) / p_.s["T"]) + pt.integral_control(lambda m_, p_: 0.3 * _x0(m_, p_) / p_.s["T"])
+
+
+def o_mayer_Tonly(m, pt, d):
+    # the horizon (but not time) inside a boundary evaluation
+    return pt.at_tf(lambda m_, p_: _x0(m_, p_) * p_.s["T"] + 0.1 * _sq(m_, p_) / p_.s["T"])
 
 
 def o_mayer_t0(m, pt, d):
